@@ -28,4 +28,14 @@ for e in idx:
         print(e["name"], status, (viol[0][:160] if viol else ""))
     finally:
         subprocess.check_call(["git", "-C", REPO, "checkout", "--", "."])
-json.dump(res, open("/verif/selftest/results.json", "w"), indent=1)
+# merge into the recorded results (a partial run must not forget the rest)
+rp = "/verif/selftest/results.json"
+old = {}
+if os.path.exists(rp):
+    try:
+        old = {x["name"]: x for x in json.load(open(rp))}
+    except Exception:
+        old = {}
+for x in res:
+    old[x["name"]] = x
+json.dump(sorted(old.values(), key=lambda x: x["name"]), open(rp, "w"), indent=1)
